@@ -121,6 +121,11 @@ func BuildAt(path string, rows []model.Row, cfg int) (ids []uint32, err error) {
 			if err != nil {
 				return err
 			}
+			// an abandoned big writer keeps a write transaction open on the temp
+			// db; without releasing it the deferred tdb.Close() above never returns
+			if cl, ok := any(w).(interface{ Close() error }); ok {
+				defer cl.Close()
+			}
 			if err := add(w); err != nil {
 				return err
 			}
